@@ -270,8 +270,77 @@ def zone_task(task):
     return sh
 
 
+PREFIX_ZONES = [("EST5EDT", "EST"), ("MST7MDT", "MST"), ("Etc/GMT+10", "Etc/GMT+1"), ("Etc/GMT-14", "Etc/GMT-1"),
+                ("NZ-CHAT", "NZ"), ("America/Indiana/Knox", "America/Indiana"), ("Asia/Ho_Chi_Minh", "Asia/Ho"),
+                ("GMT0", "GMT"), ("GB-Eire", "GB"), ("Etc/GMT+12", "Etc/GMT"), ("America/Argentina/La_Rioja", "America/Argentina/Rio_Gallegos")]
+
+
+def multizone_task(task):
+    """several zones in ONE run (dzone matrices, dconv --from-zone A --zone B) versus one zone per run"""
+    bindir, seed = task
+    import random
+    rng = random.Random(seed)
+    sh = Shard()
+    allnames = [n for n, _ in tzif.all_zone_files() if not n.startswith(("right/", "posix/"))]
+    vals = ["2012-07-01T12:00:00", "2012-01-01T00:00:00", "1950-06-15T10:30:00", "2037-12-31T23:59:59",
+            "2012-03-11T06:59:59", "2012-11-04T06:00:00"]
+
+    def dz(zones, dates):
+        r = run([str(bindir / "dzone")] + zones + dates, cpu=10, wall=60)
+        sh.procs += 1
+        return r
+    for trial in range(24):
+        if trial < len(PREFIX_ZONES) * 2:
+            a, b = PREFIX_ZONES[trial % len(PREFIX_ZONES)]
+            zones = [a, b] if trial < len(PREFIX_ZONES) else [b, a]
+            zones = [z for z in zones if os.path.isfile("/usr/share/zoneinfo/" + z)]
+            if len(zones) < 2:
+                continue
+            zones += rng.sample(allnames, 1)
+            kind = "prefix-names"
+        else:
+            zones = rng.sample(allnames, rng.choice([2, 3, 5, 9]))
+            kind = "random-names"
+        dates = rng.sample(vals, 2)
+        r = dz(zones, dates)
+        if sh.check_san(r, "san", "multizone:dzone"):
+            continue
+        want = b""
+        for d in dates:
+            for z in zones:
+                r1 = dz([z], [d])
+                want += r1.out
+        c = ("dzone-matrix", kind, "n%d" % len(zones))
+        if r.out == want:
+            sh.ok("history", c, n=len(zones) * len(dates))
+        else:
+            gl, wl = r.out.split(b"\n"), want.split(b"\n")
+            k = next((i for i, (x, y) in enumerate(zip(gl, wl)) if x != y), 0)
+            sh.bad("history", "hist:dzone-matrix:%s" % kind,
+                   "dzone %s %s: row %d is %r, the single-zone run gives %r" %
+                   (" ".join(zones), " ".join(dates), k, gl[k][:60], wl[k][:60] if k < len(wl) else None),
+                   dict(argv=["dzone"] + zones + dates, expected=want.decode("latin-1"), observed=r.out.decode("latin-1")), cls=c)
+        # dconv with both zones in one run versus two runs through UTC
+        a, b = zones[0], zones[1]
+        for v in dates:
+            r2 = run([str(bindir / "dconv"), "--from-zone", a, "--zone", b, "-f", "%FT%T", v], cpu=10, wall=60)
+            u = run([str(bindir / "dconv"), "--from-zone", a, "-f", "%FT%T", v], cpu=10, wall=60)
+            w = run([str(bindir / "dconv"), "--zone", b, "-f", "%FT%T", u.out.decode("latin-1").strip()], cpu=10, wall=60)
+            sh.procs += 3
+            if sh.check_san(r2, "san", "multizone:dconv"):
+                continue
+            c = ("dconv-zone-pair", kind)
+            if r2.out == w.out:
+                sh.ok("history", c)
+            else:
+                sh.bad("history", "hist:dconv-zone-pair:%s" % kind,
+                       "dconv --from-zone %s --zone %s %s -> %r, via UTC in two runs: %r" % (a, b, v, r2.out[:40], w.out[:40]),
+                       dict(argv=["dconv", "--from-zone", a, "--zone", b, "-f", "%FT%T", v], expected=w.out.decode("latin-1").strip()), cls=c)
+    return sh
+
+
 def _dispatch(t):
-    return tool_task(t[1]) if t[0] == "tool" else zone_task(t[1])
+    return tool_task(t[1]) if t[0] == "tool" else multizone_task(t[1]) if t[0] == "mz" else zone_task(t[1])
 
 
 def main(tier, seed):
@@ -289,6 +358,8 @@ def main(tier, seed):
     zs += rng.sample(allz, 40 if quick else 600)
     for i, (n, p) in enumerate(zs):
         tasks.append(("zone", (bindir, n, p, seed * 104729 + i, 12 if quick else 60)))
+    for k in range(4 if quick else 40):
+        tasks.append(("mz", (bindir, seed * 131 + k)))
     for sh in core.pmap(_dispatch, tasks):
         ctx.merge(sh)
     nos = len(option_sets())
@@ -298,6 +369,8 @@ def main(tier, seed):
                 "histories: permutations, junk prefixes, >255 and >512 lines, duplicates, reversal, command-line "
                 "arguments; zones: %d zone images x histories (random, alternating around a boundary, descending, "
                 "negative-first, far-future-first, after zif_copy) of zif_local_time/zif_utc_time calls against the "
+                "fresh-handle answer; several zones in one run (dzone matrices and dconv --from-zone/--zone pairs, incl. "
+                "zone names that are prefixes of each other) against one-zone-per-run; compared with the "
                 "fresh-handle answer and the zone-file oracle. distinct_nontrivial = distinct (option set | zone "
                 "history kind, history class, mode)" % (nos, len(zs)))
     ctx.assumptions = ["dseq, dsort and ddiff without a fixed reference are out of scope by the statement",
